@@ -221,6 +221,14 @@ func scanPython(ents []ent) pyOut {
 }
 
 func opPy(r *hx.Run, o pyOut, path string, file []byte, nontrivial bool) {
+	for _, c := range file {
+		if c >= 0x80 {
+			// strings.ToLower is modelled for ASCII only (it rewrites invalid UTF-8 and folds
+			// non-ASCII letters): outside the model's domain
+			r.Count("python:skipped-non-ascii")
+			return
+		}
+	}
 	out := "err"
 	switch {
 	case o.panic:
@@ -236,7 +244,7 @@ func opPy(r *hx.Run, o pyOut, path string, file []byte, nontrivial bool) {
 }
 
 func runPython(r *hx.Run, rnd *hx.Rand, cfg hx.Config) {
-	n := cfg.N(120, 4000)
+	n := cfg.N(120, 2000)
 	for i := 0; i < n && !r.Stop(); i++ {
 		k := rnd.Intn(7)
 		ps, public, class := genPyPkgs(rnd, k)
